@@ -190,6 +190,14 @@ M = {
   ('error func prefix', 'sourcer/expressions/base.py', "        return Code(f'_raise_error{self.program_id}')", "        return Code(f'raise_error{self.program_id}')"),
   ('ctx param named ctx', 'sourcer/expressions/rule.py', "        extra_params = ['_ctx'] if flags.uses_context else []\n        params = extra_params + [str(TEXT), str(POS)] + (self.params or [])\n        impl_name", "        extra_params = ['_ctx'] if flags.uses_context else []\n        params = extra_params + [str(TEXT), str(POS)] + (self.params or [])\n        if 'memo' in (self.params or []):\n            params = params[:-len(self.params)] + ['_memo' if p == 'memo' else p for p in self.params]\n        impl_name"),
  ],
+ 'C11': [
+  ('helper forgets ctx when generator', 'sourcer/expressions/base.py', "        extras = ['_ctx'] if flags.uses_context else []\n        params = extras + [str(TEXT), str(POS)] + list(sorted(self.freevars()))", "        extras = ['_ctx'] if flags.uses_context and not is_generator else []\n        params = extras + [str(TEXT), str(POS)] + list(sorted(self.freevars()))"),
+  ('include_source changes block budget', 'sourcer/grammar.py', "    builder = translator.generate_source_code(docstring, parsed)\n", "    builder = translator.generate_source_code(docstring, parsed)\n    if include_source: builder._max_num_blocks = 12\n"),
+  ('named grammars other block budget', 'sourcer/translator.py', "    out = CodeBuilder()\n    out.add_docstring(docstring)", "    out = CodeBuilder(max_num_blocks=20 if parsed.name is None else 12)\n    out.add_docstring(docstring)"),
+  ('runtime needs sourcer at import', 'sourcer/translator.py', "from collections import namedtuple as _nt\nfrom re import compile", "from collections import namedtuple as _nt\nimport sourcer as _sourcer_pkg\nfrom re import compile"),
+  ('named class parse uses module global ctx late', 'sourcer/expressions/class_.py', "                out.RETURN(Code(f'_run({ctx}text, pos, {parse_func}, fullparse)'))", "                out.RETURN(Code(f'_run({ctx}text, pos, {parse_func}, fullparse)' if not flags.uses_context else f'_run({ctx}text, 0, {parse_func}, fullparse)'))"),
+  ('revert F08 cutoff', 'sourcer/expressions/base.py', "        if len(params) <= cutoff:\n            return func\n        else:\n            _ParseFunction = Code('_ParseFunction')\n            value = _ParseFunction(func, tuple(params[cutoff:]), ())", "        if len(params) <= 3:\n            return func\n        else:\n            _ParseFunction = Code('_ParseFunction')\n            value = _ParseFunction(func, tuple(params[2:]), ())"),
+ ],
  'C03': [
   ('sep drop pop', 'sourcer/expressions/sep.py', "                    with out.IF(staging):\n                        out += staging.pop()\n", "                    pass\n"),
   ('sep require_separator empty', 'sourcer/expressions/sep.py', "Code(f'not {staging} or {saw_separator}')", "Code(f'{saw_separator}')"),
